@@ -98,6 +98,52 @@ pub fn join_space(v: &Vec<String>) -> (r: String)
 #[verifier::external_body]
 pub fn write_translate(element: &mut SvgElement, x: R32, y: R32) ensures final(element).name == old(element).name { unimplemented!() }
 
+// ------------------------------------------------------------------------------ attribute harvesting (From<&SvgElement> for Position)
+pub open spec fn num(m: M, k: Seq<char>) -> Option<real> { if m.dom().contains(k) { strp_spec(m[k]) } else { None } }
+pub open spec fn num_or(m: M, k1: Seq<char>, k2: Seq<char>) -> Option<real> { if m.dom().contains(k1) { strp_spec(m[k1]) } else { num(m, k2) } }
+pub open spec fn oval(o: Option<R32>) -> Option<real> { match o { Some(x) => Some(val(x)), None => None } }
+pub open spec fn twice(o: Option<real>) -> Option<real> { match o { Some(x) => Some(x * 2real), None => None } }
+/// R-optmap: `o.map(|v| strp(v.as_ref()))`
+#[verifier::external_body]
+pub fn opt_strp(o: Option<String>) -> (r: Option<Result<R32>>)
+    ensures (o is None) == (r is None), o is Some ==> (match strp_spec(o->Some_0@) { Some(x) => r->Some_0 is Ok && val(r->Some_0->Ok_0) == x, None => r->Some_0 is Err })
+{ unimplemented!() }
+/// R-optmap: `o.and_then(|v| strp(v.as_ref()).ok())`
+#[verifier::external_body]
+pub fn opt_strp_ok(o: Option<String>) -> (r: Option<R32>)
+    ensures oval(r) == (match o { Some(s) => strp_spec(s@), None => None })
+{ unimplemented!() }
+/// `a.or(b)` on attribute lookups
+#[verifier::external_body]
+pub fn opt_or(a: Option<String>, b: Option<String>) -> (r: Option<String>) ensures r == (if a is Some { a } else { b }) { unimplemented!() }
+impl Position {
+    /// `Self { shape: shape.into(), ..Default::default() }`
+    #[verifier::external_body]
+    pub fn new(shape: &String) -> (r: Position)
+        ensures r.shape@ == shape@, r.xmin is None, r.ymin is None, r.xmax is None, r.ymax is None, r.cx is None, r.cy is None,
+            r.width is None, r.height is None, r.dx is None, r.dy is None
+    { unimplemented!() }
+//@item src/position.rs :: impl From<&SvgElement> for Position :: fn from
+//@ strlit "circle" "ellipse" "use" "reuse"
+//@ replace-re[R-optmap] <<<(\w+)\.map\(\|\w+\| strp\(\w+\.as_ref\(\)\)\)>>> => <<<opt_strp(\1)>>>
+//@ replace-re[R-optmap] <<<value\.get_attr\("(\w+)"\)\.and_then\(\|\w+\| strp\(\w+\.as_ref\(\)\)\.ok\(\)\)>>> => <<<opt_strp_ok(value.get_attr("\1"))>>>
+//@ replace-re[R-optor] <<<value\.get_attr\("(\w+)"\)\.or\(value\.get_attr\("(\w+)"\)\)>>> => <<<opt_or(value.get_attr("\1"), value.get_attr("\2"))>>>
+//@ replace?[R-strmatch] <<<if let "circle" | "ellipse" = value.name.as_str() {>>> => <<<if value.name.as_str() == "circle" || value.name.as_str() == "ellipse" {>>>
+//@ ensures
+//@ - oval(r.dx) == num(value.attrs@, "dx"@) && oval(r.dy) == num(value.attrs@, "dy"@)     @@C11.harvest.offsets
+//@ - oval(r.xmin) == num_or(value.attrs@, "x1"@, "x"@) && oval(r.ymin) == num_or(value.attrs@, "y1"@, "y"@)     @@C11.harvest.start
+//@ - oval(r.xmax) == num(value.attrs@, "x2"@) && oval(r.ymax) == num(value.attrs@, "y2"@)     @@C11.harvest.end
+//@ - oval(r.cx) == num(value.attrs@, "cx"@) && oval(r.cy) == num(value.attrs@, "cy"@)     @@C11.harvest.centre
+//@ - ({ let m = value.attrs@; let n = value.name@;
+//@      let plain_w = if n == "use"@ || n == "reuse"@ { None } else { num(m, "width"@) };
+//@      let plain_h = if n == "use"@ || n == "reuse"@ { None } else { num(m, "height"@) };
+//@      let round = n == "circle"@ || n == "ellipse"@;
+//@      oval(r.width) == (if round && num_or(m, "rx"@, "r"@) is Some { twice(num_or(m, "rx"@, "r"@)) } else { plain_w })
+//@      && oval(r.height) == (if round && num_or(m, "ry"@, "r"@) is Some { twice(num_or(m, "ry"@, "r"@)) } else { plain_h }) })     @@C11.harvest.length
+//@ - r.shape@ == value.name@
+//@end
+}
+
 // ------------------------------------------------------------------------------ native attribute sets
 pub open spec fn lacks(m: M, ks: Seq<Seq<char>>) -> bool { forall|i: int| 0 <= i < ks.len() ==> !m.dom().contains(#[trigger] ks[i]) }
 pub open spec fn is_rectlike(n: Seq<char>) -> bool { n == ""@ || n == "rect"@ || n == "use"@ || n == "image"@ || n == "svg"@ || n == "foreignObject"@ }
